@@ -1210,7 +1210,21 @@ func (e *Env) calleeView(x *ssa.Call) (ce *Env, ret *ssa.Return, sub map[string]
 			}
 		}
 	}()
-	sub = map[string]lin.Term{}
+	sub, rename = e.paramSubst(x)
+	e.importFacts(ce, sub, rename)
+	e.p.Cfg.use("result of a single-return helper of the package = its return expression over the arguments")
+	return ce, ret, sub, rename, true
+}
+
+// paramSubst: how the callee's vocabulary maps to the caller's at call x —
+// integer parameters and the len/cap of slice/string parameters become the
+// argument's terms; a never-stored field read through a pointer parameter
+// ("*p.f") names the same memory as the caller's "*<arg>.f"; every other
+// variable of the callee is renamed per call site.
+func (e *Env) paramSubst(x *ssa.Call) (map[string]lin.Term, func(string) string) {
+	g := x.Call.StaticCallee()
+	sub := map[string]lin.Term{}
+	ptr := map[string]string{}
 	for i, p := range g.Params {
 		if i >= len(x.Call.Args) {
 			break
@@ -1227,13 +1241,138 @@ func (e *Env) calleeView(x *ssa.Call) (ce *Env, ret *ssa.Return, sub map[string]
 					sub["cap("+p.Name()+")"] = e.capTerm(a)
 				}
 			}
+		case *types.Pointer:
+			ptr["*"+p.Name()+"."] = "*" + ssax.AddrKey(a) + "."
 		}
 	}
 	prefix := "@" + x.Name() + "."
-	rename = func(n string) string { return prefix + n }
+	rename := func(n string) string {
+		for from, to := range ptr {
+			if strings.HasPrefix(n, from) {
+				return to + strings.TrimPrefix(n, from)
+			}
+			if strings.HasPrefix(n, "len("+from) {
+				return "len(" + to + strings.TrimPrefix(n, "len("+from)
+			}
+		}
+		return prefix + n
+	}
+	return sub, rename
+}
+
+// clone copies the environment (facts so far, no sharing of later additions).
+func (e *Env) clone() *Env {
+	n := &Env{p: e.p, at: e.at, fn: e.fn, memo: map[ssa.Value]lin.Term{}, vars: map[string]bool{}}
+	n.Facts = append(n.Facts, e.Facts...)
+	for k, v := range e.memo {
+		n.memo[k] = v
+	}
+	for k, v := range e.vars {
+		n.vars[k] = v
+	}
+	return n
+}
+
+// CondCases: the environments in which the boolean c has the value taken. An
+// ordinary condition gives one (e plus the facts of the condition). A call of
+// a bool-valued helper of the package (an extracted predicate) gives one per
+// way the helper can return that value — each return, and each incoming edge
+// of a returned φ (short-circuit && / ||) — carrying the facts of that way in
+// the caller's terms: a disjunctive guard is decided case by case, exactly as
+// it is edge by edge when written inline.
+func (e *Env) CondCases(c ssa.Value, taken bool) []*Env {
+	one := func() []*Env {
+		n := e.clone()
+		n.condFacts(c, taken, "guard")
+		return []*Env{n}
+	}
+	if u, ok := c.(*ssa.UnOp); ok && u.Op == token.NOT {
+		return e.CondCases(u.X, !taken)
+	}
+	call, ok := c.(*ssa.Call)
+	if !ok {
+		return one()
+	}
+	g := call.Call.StaticCallee()
+	if g == nil || g.Pkg == nil || g.Pkg != e.fn.Pkg || g == e.fn || len(g.Blocks) == 0 || e.p.inlining[g] {
+		return one()
+	}
+	res := g.Signature.Results()
+	if res.Len() != 1 {
+		return one()
+	}
+	if b, isB := res.At(0).Type().Underlying().(*types.Basic); !isB || b.Kind() != types.Bool {
+		return one()
+	}
+	sub, rename := e.paramSubst(call)
+	var out []*Env
+	lift := func(ce *Env) {
+		n := e.clone()
+		n.importFacts(ce, sub, rename)
+		out = append(out, n)
+	}
+	matches := func(k *ssa.Const) bool { return k.Value != nil && constant.BoolVal(k.Value) == taken }
+	ssax.Instrs(g, func(in ssa.Instruction) {
+		ret, isRet := in.(*ssa.Return)
+		if !isRet || in.Block().Comment == "recover" || len(ret.Results) != 1 {
+			return
+		}
+		switch v := ret.Results[0].(type) {
+		case *ssa.Const:
+			if matches(v) {
+				lift(e.p.EnvAt(ret))
+			}
+		case *ssa.Phi:
+			for i, ev := range v.Edges {
+				pb := v.Block().Preds[i]
+				last := pb.Instrs[len(pb.Instrs)-1]
+				ce := e.p.EnvAt(last)
+				if iff, isIf := last.(*ssa.If); isIf && pb.Succs[0] != pb.Succs[1] {
+					ce.condFacts(iff.Cond, pb.Succs[0] == v.Block(), "branch (in "+g.Name()+")")
+				}
+				if k, isK := ev.(*ssa.Const); isK {
+					if matches(k) {
+						lift(ce)
+					}
+					continue
+				}
+				ce.condFacts(ev, taken, "returned condition (in "+g.Name()+")")
+				lift(ce)
+			}
+		default:
+			ce := e.p.EnvAt(ret)
+			ce.condFacts(v, taken, "returned condition (in "+g.Name()+")")
+			lift(ce)
+		}
+	})
+	if len(out) == 0 {
+		return one()
+	}
+	e.p.Cfg.use("a bool-valued helper of the package has a given value only in one of the ways its body returns it")
+	return out
+}
+
+// LiftValue expresses an integer value of the helper called by x (or, with
+// length, the len of one of its values) in e's terms, whatever the helper's
+// return structure.
+func (e *Env) LiftValue(x *ssa.Call, v ssa.Value, length bool) (lin.Term, bool) {
+	g := x.Call.StaticCallee()
+	if g == nil || g.Pkg != e.fn.Pkg || len(g.Blocks) == 0 {
+		return lin.Term{}, false
+	}
+	// no branch facts of the helper: the value may be computed on one of its
+	// paths only; what comes along are the definitional facts of the term
+	// (ranges, len ≥ 0, …)
+	ce := &Env{p: e.p, at: nil, fn: g, memo: map[ssa.Value]lin.Term{}, vars: map[string]bool{}}
+	sub, rename := e.paramSubst(x)
+	var t lin.Term
+	if length {
+		t = lin.Subst(ce.lenTerm(v), sub, rename)
+	} else {
+		t = lin.Subst(ce.Term(v), sub, rename)
+	}
 	e.importFacts(ce, sub, rename)
-	e.p.Cfg.use("result of a single-return helper of the package = its return expression over the arguments")
-	return ce, ret, sub, rename, true
+	return t, true
 }
 
 // importFacts brings the callee's facts (renamed) into e, each once.
